@@ -246,8 +246,9 @@ func (core *JApiCore) checkPathSchemaPropertyUserType(typeName string, seen map[
 	}
 
 	if _, ok := ut.Schema.(*catalog.ExchangePseudoSchema); ok {
-		// a type in any / empty notation has no schema to inspect
-		return nil
+		// A type in any / empty notation is not a schema a property can refer to: the
+		// schema of the path variables could not be rendered (as for "200 @t").
+		return fmt.Errorf(`%s (%s)`, jerr.UserTypeNotFound, typeName)
 	}
 
 	if _, ok := seen[typeName]; ok {
